@@ -13,6 +13,7 @@ import (
 	"github.com/panjf2000/ants/v2"
 	"massnet.org/mass/fractal/connection"
 	"massnet.org/mass/fractal/protocol"
+	"massnet.org/mass/verifhook"
 )
 
 type Superior interface {
@@ -153,6 +154,7 @@ func NewLocalSuperior() *LocalSuperior {
 
 func (ls *LocalSuperior) Subscribe(ctx context.Context, c Collector) {
 	ls.baseSuperior.Subscribe(ctx, c)
+	verifhook.Point("superior.subscribe.added", ls, c.ID())
 	if task := ls.latestTask; task != nil {
 		ls.Send(ctx, c.ID(), task)
 	}
@@ -166,6 +168,7 @@ func (ls *LocalSuperior) AddTask(ctx context.Context, collectorID uuid.UUID, req
 
 	if collectorID == uuid.Nil {
 		ls.latestTask = req
+		verifhook.Point("superior.addTask.registered", ls, req.ID())
 		ls.Broadcast(ctx, req)
 	} else {
 		ls.Send(ctx, collectorID, req)
